@@ -23,7 +23,7 @@ VERIF_DIR = proc.VERIF_DIR
 FORMAT = 1
 DEFAULT_SEED = 20261004
 
-QUICK_RUNS = {"C09": 1800, "C10": 1600, "C08": 1600}
+QUICK_RUNS = {"C09": 1400, "C10": 1000, "C08": 6000}
 GEN_SIZE = 512
 TITLES = {"C08": "identity caches and pickling across 1-2 interpreters",
           "C09": "lazy loading vs history", "C10": "private-table isolation"}
@@ -410,6 +410,32 @@ def main(argv=None):
             for v in viol:
                 log("  " + json.dumps(v)[:600])
             return 1 if ok else 0
+        if what == "record":
+            # ./check record <history.json>: run one explicit history through execute/judge/minimise/replay
+            with open(a.arg) as f:
+                body = json.load(f)
+            W = runner.Worker(repo)
+            run = {"prop": body["property"], "seed": body.get("run_seed", 0), "index": None, "cfg": None,
+                   "events": body["events"]}
+            tr = W.execute(run, mode="subprocess")
+            viol = W.judge(run, tr)
+            seen = set()
+            for t in sorted({runner.triple(v) for v in viol}):
+                if t in seen:
+                    continue
+
+                def still(cand, t=t):
+                    trc = W.execute(cand, want_abstract=False)
+                    return t in {runner.triple(v) for v in W.judge(cand, trc)}
+                small = minimise.minimise(still, run, 200)
+                tr2 = W.execute(small, mode="subprocess")
+                vv = W.judge(small, tr2)
+                seen |= {runner.triple(v) for v in vv}
+                path = write_replay(run["prop"], master, "quick", small, vv, t, run["events"],
+                                    runner.fired(small, tr2), repo)
+                log("recorded class %s -> %s  history %s" % (list(t), path, json.dumps(small["events"])))
+            W.close()
+            return 0
         if what == "selftest-determinism":
             from . import selftest
             return selftest.determinism(master, repo, a.workers)
